@@ -15,6 +15,7 @@ import MosnVerif.Drive.C08Set
 import MosnVerif.Drive.C08Trail
 import MosnVerif.Model.NeedMoreLive
 import MosnVerif.Drive.C08Chk
+import MosnVerif.Model.CheckedWire
 /-! driver of C08 (malformed input contained): see `run` for the case kinds. Core Lean only. -/
 namespace MosnVerif.Drive.C08
 open MosnVerif.Drive MosnVerif.Model.Framing MosnVerif.Model.FrameBytes MosnVerif.Model.FrameChk MosnVerif.Model.KVBlock
@@ -73,13 +74,16 @@ Payload parsers and HPACK may accept or refuse (oracles): the implementation mus
 def h2dec (bytes : String) (impl : List String) : String :=
   match unhex bytes, impl with
   | some b, [o] =>
-    let m (p g : Bool) := showStep (MosnVerif.Model.FrameH2.h2Step MosnVerif.Gen.FrameConsts.http2_defaultMaxReadFrameSize
-      (fun _ => p) (fun _ => g) true b)
+    -- [c08p10] the payload parsers are the REGENERATED ones (Gen/C08H2Parse), no longer an oracle; only the verdict on a
+    -- complete header block (HPACK + validation) may go either way
+    let gp : List UInt8 → Bool := fun frame => MosnVerif.Model.CheckedWire.genParse? frame == some .ok
+    let m (g : Bool) := showStep (MosnVerif.Model.FrameH2.h2Step MosnVerif.Gen.FrameConsts.http2_defaultMaxReadFrameSize
+      gp (fun _ => g) true b)
     -- a failing ReadFrame consumes nothing, or (stream errors) the complete frame / header-block group
-    let errs := (MosnVerif.Model.FrameH2.errDrains MosnVerif.Gen.FrameConsts.http2_defaultMaxReadFrameSize (fun _ => true) b).map
+    let errs := (MosnVerif.Model.FrameH2.errDrains MosnVerif.Gen.FrameConsts.http2_defaultMaxReadFrameSize gp b).map
       (fun n => s!"error:{n}")
-    let allowed := dedup ([m true true, m true false, m false true] ++
-      (if (m true false).startsWith "error" || (m false true).startsWith "error" then errs else []))
+    let allowed := dedup ([m true, m false] ++
+      (if (m true).startsWith "error" || (m false).startsWith "error" then errs else []))
     let agree := allowed.contains o
     let spec := match parseOutcome o with
       | some oc => specContained b.length oc
